@@ -26,6 +26,10 @@ PROPS = {
     "C01-server-name-lookup-ignores-raw-case": ["C01"], "C02-streambuffer-pop-fast-path-skips-wakeup": ["C02", "C08"], "C05-h2-zero-window-skips-end-check": ["C05", "C09"],
     "C09-send-data-negative-window-unclamped": ["C09"], "C11-h11-upgrade-any-method": ["C11", "C13"], "C12-ws-denial-headers-validated-at-start-only": ["C12"],
     "C14-trio-shutdown-sent-at-trigger": ["C14"], "C17-first-chunk-peek-outside-finally": ["C17"], "C18-ws-upgrade-not-counted": ["C18"], "C19-bracketed-ipv6-special-case-removed": ["C19"],
+    "C03-access-record-skipped-in-trailers-state": ["C03"], "C04-priority-update-membership-test": ["C04"], "C06-close-not-announced-when-app-sets-connection": ["C06", "C18"],
+    "C07-h2-no-idle-report-after-goaway": ["C07"], "C08-reset-stream-blocked-instead-of-woken": ["C08"], "C10-shared-permessage-deflate-object": ["C10"],
+    "C13-tls-without-alpn-defaults-to-first-offer": ["C13", "C16"], "C15-mark-request-also-sets-terminated": ["C15"], "C16-asyncio-restart-keeps-pending-timer": ["C16", "C07"],
+    "C20-proxyfix-lazy-copy-misses-scheme": ["C20"],
 }
 claimed = {c["property_id"] for c in json.load(open(os.path.join(HERE, "MANIFEST.json")))["checks"]}
 sel = sys.argv[1:]
